@@ -145,18 +145,22 @@ fn reason_term(s: &str) -> String {
 enum H {
     R(JoinHandle<Result<(), MessagingErr<Msg>>>),
     U(JoinHandle<()>),
+    /// the timer function itself panicked in the caller
+    Panicked,
 }
 impl H {
     fn fin(&self) -> bool {
         match self {
             H::R(h) => h.is_finished(),
             H::U(h) => h.is_finished(),
+            H::Panicked => true,
         }
     }
     fn abort(&self) {
         match self {
             H::R(h) => h.abort(),
             H::U(h) => h.abort(),
+            H::Panicked => {}
         }
     }
 }
@@ -218,9 +222,12 @@ async fn scenario(line: &str) -> String {
         }
         match w[0] {
             "mk" => {
-                let d = Duration::from_nanos(w[2].parse().unwrap());
+                let d = if w[2] == "max" { Duration::MAX } else { Duration::from_nanos(w[2].parse().unwrap()) };
                 let tid = hs.len() as u64;
-                let h = match w[1] {
+                let tgt2 = tgt.clone();
+                let made = std::panic::catch_unwind(std::panic::AssertUnwindSafe(move || {
+                let tgt = tgt2;
+                match w[1] {
                     "a" => H::R(tgt.send_after(d, move || Msg::Tick(tid, 1))),
                     "i" => {
                         let c = AtomicU64::new(0);
@@ -229,8 +236,8 @@ async fn scenario(line: &str) -> String {
                     "e" => H::U(tgt.exit_after(d)),
                     "k" => H::U(tgt.kill_after(d)),
                     x => panic!("bad timer kind {x}"),
-                };
-                hs.push(h);
+                }}));
+                hs.push(made.unwrap_or(H::Panicked));
             }
             "abort" => {
                 let i: usize = w[1].parse().unwrap();
@@ -293,6 +300,7 @@ async fn scenario(line: &str) -> String {
                     Some(Err(_)) => "HPanic",
                     None => "HPending",
                 },
+                H::Panicked => "HPanic",
             }
         };
         res.push(s.to_string());
@@ -325,6 +333,13 @@ async fn calib(a: u64, b: u64, c: u64) -> String {
 }
 
 fn main() {
+    // panics of the code under test are observations (HPanic), not noise on stdout
+    std::panic::set_hook(Box::new(|info| {
+        let s = info.to_string();
+        if s.contains("bad op") || s.contains("bad timer kind") || s.contains("assertion") {
+            eprintln!("{s}");
+        }
+    }));
     for line in stdin_lines() {
         let rt = tokio::runtime::Builder::new_current_thread()
             .enable_time()
